@@ -1476,10 +1476,18 @@ func parseListLevel(s string) int {
 	for _, c := range s {
 		if c >= '0' && c <= '9' {
 			level = level*10 + int(c-'0')
+			// The level comes from the file and sizes the indentation of the rendered item;
+			// WordprocessingML defines levels 0 to 8 only.
+			if level > maxListLevel {
+				return maxListLevel
+			}
 		}
 	}
 	return level
 }
+
+// maxListLevel is the deepest list level WordprocessingML knows (w:ilvl is 0..8).
+const maxListLevel = 8
 
 // Lists returns all parsed lists from the document.
 func (r *Reader) Lists() []ParsedList {
